@@ -67,6 +67,19 @@ def model_step(st, op):
     return tuple(st)
 
 
+def list_from(caller):
+    from pyworkers.worker import Worker
+    if caller == 'creator':
+        return list(Worker.active_children())
+    box = []
+    t = threading.Thread(target=lambda: box.append(list(Worker.active_children())))
+    t.start()
+    t.join(20)
+    if not box:
+        raise RuntimeError('active_children() did not return in a fresh thread')
+    return box[0]
+
+
 def run_history(hist, check_each):
     """Executes the history on real workers. Returns None or a (signature, observed) violation."""
     from pyworkers.worker import Worker
@@ -104,15 +117,20 @@ def run_history(hist, check_each):
                 ws[i].restart()
             st = model_step(st, op) if op != 'list' else st
             if op == 'list' or check_each or k == len(hist) - 1:
-                got = list(Worker.active_children())
                 want = [w for w, (kind, alive) in zip(ws, st) if alive]
-                gi = sorted(ws.index(g) if g in ws else -1 for g in got)
                 wi = sorted(ws.index(w) for w in want)
-                if gi != wi:
-                    what = 'duplicate' if len(set(gi)) != len(gi) else ('dead-worker-yielded' if set(gi) - set(wi) else 'live-worker-missing')
-                    kinds = '+'.join(sorted(set(st[i][0] for i in (set(gi) ^ set(wi)) if i >= 0)))
-                    after = 'after-restart' if any(o.startswith('restart') for o in hist[:k + 1]) else 'no-restart'
-                    return ('SEQ/%s/%s/%s' % (what, kinds, after), {'yielded': gi, 'alive': wi, 'at_step': k})
+                # the caller is part of the input: the thread which created the workers, and a thread started just now (the
+                # operating system hands it the identifier of a thread worker that has finished, if there is one)
+                # (a listing prunes: after an explicit "list" step the creator looks first, otherwise the fresh thread does)
+                for caller in (('creator', 'fresh-thread') if op == 'list' else ('fresh-thread', 'creator')):
+                    got = list_from(caller)
+                    gi = sorted(ws.index(g) if g in ws else -1 for g in got)
+                    if gi != wi:
+                        what = 'duplicate' if len(set(gi)) != len(gi) else ('dead-worker-yielded' if set(gi) - set(wi) else 'live-worker-missing')
+                        kinds = '+'.join(sorted(set(st[i][0] for i in (set(gi) ^ set(wi)) if i >= 0)))
+                        after = 'after-restart' if any(o.startswith('restart') for o in hist[:k + 1]) else 'no-restart'
+                        return ('SEQ/%s/%s/%s%s' % (what, kinds, after, '' if caller == 'creator' else '/listed-from-' + caller),
+                                {'yielded': gi, 'alive': wi, 'at_step': k, 'caller': caller})
         return None
     finally:
         for f in flags:
@@ -141,7 +159,7 @@ def retention(ctx, cycles):
         if i % 50 == 7:
             list(Worker.active_children())
         del w
-    left = list(Worker.active_children())
+    left = list_from('fresh-thread') + list(Worker.active_children())
     registry = len(Worker._active_children)
     gc.collect()
     alive_refs = sum(1 for a, b in refs if a() is not None or b() is not None)
